@@ -192,11 +192,38 @@ var unqueuedCmdTable = map[string]bool{
 }
 
 func (ctx *cmdContext) info(cs *clientState) string {
-	// take complete ownership of the data store
-	ctx.dsc.acquireExclusive()
-	defer ctx.dsc.releaseExclusive()
-
 	return ctx.infoUnlocked(cs)
+}
+
+// reports whether EXEC on cs would fail because a watched key has changed. The watched keys
+// may live in any data store: each stamp is compared under the lock of its own data store.
+// Inside an EXEC the data stores the transaction owns are read directly, and the others are
+// not waited for while those are held.
+func (ctx *cmdContext) watchesChanged(cs *clientState) bool {
+	for watch, id := range cs.copyWatches() {
+		if ctx.cs.execOwned != nil {
+			if _, owned := ctx.cs.execOwned[watch.ds]; owned {
+				if watch.ds.hasChangedUnlocked(watch.key, id) {
+					return true
+				}
+			} else if watch.ds.mu.TryLock() {
+				changed := watch.ds.hasChangedUnlocked(watch.key, id)
+				watch.ds.mu.Unlock()
+				if changed {
+					return true
+				}
+			}
+			continue
+		}
+		dsc := watch.ds.newDataStoreCommand()
+		dsc.lock()
+		changed := watch.ds.hasChangedUnlocked(watch.key, id)
+		dsc.unlock()
+		if changed {
+			return true
+		}
+	}
+	return false
 }
 
 func (ctx *cmdContext) infoUnlocked(cs *clientState) string {
@@ -215,7 +242,7 @@ func (ctx *cmdContext) infoUnlocked(cs *clientState) string {
 	if cs.client.IsCloseRequested() {
 		flags.WriteRune('c')
 	}
-	if isAbortedExecUnlocked(cs) {
+	if ctx.watchesChanged(cs) {
 		flags.WriteRune('d')
 	}
 	if cs.isMultiInProgress() {
